@@ -224,6 +224,9 @@ mod n {
         }
         txt.push_str("    ");
         s.replace_range(pg..end, &txt);
+        // a ceiling taken from the space outline (cubo's own roofs carry polygons): LOCATION = TOP, no POLYGON
+        let fl = s.find("\"P01_E01C001\" = ROOF").expect("first ROOF block");
+        s.insert_str(fl, "\"verif_TOP001\" = ROOF\n                  ABSORPTANCE   =            0.6\n                  CONSTRUCTION  = \"PIV por defecto\"\n                  LOCATION      = TOP\n                        ..\n                  \"PIV por defecto\" =  CONSTRUCTION\n                        TYPE   = LAYERS\n                        LAYERS = \"PIV por defecto\"\n                        ..\n            ");
         // rectangular shades (origin, width, height, BDL azimuth of the outward normal clockwise from +Y, tilt)
         let sh = s.find("\"Sombra007\" = BUILDING-SHADE").expect("a BUILDING-SHADE block");
         let mut blocks = String::new();
@@ -289,6 +292,7 @@ mod n {
             };
             let height = 3.0f32;
             let mut n_edge = 0;
+            let mut n_ceiling = 0;
             for bw in &data.bdldata.walls {
                 let w = match model.walls.iter().find(|w| w.name == bw.name) {
                     Some(w) => w,
@@ -311,6 +315,13 @@ mod n {
                         c.check("C03.area", (w.area() - len * height).abs() <= 0.02, || format!("wall {} area {} want {}", bw.name, w.area(), len * height));
                         n_edge += 1;
                     }
+                    Some("TOP") if bw.polygon.is_none() => {
+                        let want: Vec<_> = outline.iter().map(|p| to_world(p.0, p.1, height)).collect();
+                        c.check("C03.ceiling.reproduces_outline", same_set(&got, &want, 0.01), || format!("ceiling {}: corners {:?} want {:?}", bw.name, got, want));
+                        let nrm = crate::types::HasSurface::normal(&w.geometry);
+                        c.check("C03.ceiling.faces_up", nrm.z > 0.99, || format!("ceiling {} normal {:?}", bw.name, nrm));
+                        n_ceiling += 1;
+                    }
                     Some("BOTTOM") => {
                         let want: Vec<_> = outline.iter().map(|p| to_world(p.0, p.1, 0.0)).collect();
                         c.check("C03.floor.reproduces_outline", same_set(&got, &want, 0.01), || format!("floor {}: corners {:?} want {:?}", bw.name, got, want));
@@ -329,7 +340,7 @@ mod n {
                     }
                 }
             }
-            c.check("C03.conversion.edge_walls_seen", n_edge == 4, || format!("{} edge walls", n_edge));
+            c.check("C03.conversion.edge_walls_seen", n_edge == 4 && n_ceiling == 1, || format!("{} edge walls, {} ceilings from the outline", n_edge, n_ceiling));
             // windows keep size, offset and setback within their wall
             for bwin in &data.bdldata.windows {
                 match model.windows.iter().find(|w| w.name == bwin.name) {
